@@ -216,7 +216,12 @@ def rule_placement(ctx, R, NR, BR, rules=None):
         st_map = [s for s in S.stores if m(E(idmap, child), s["tgt"], dict(env))]
         ok_map = len(st_map) == 1 and m(child_idx, st_map[0]["val"], env2)
         pushes = [s for s in S.keyed(lambda k: k == VEC_PUSH) if core.same(s["args"][0], stack)]
-        ok_push = len(pushes) == 1 and m(child, pushes[0]["args"][1])
+        # one push per child inside the edge loop; any other push is the seed: ROOT, once, before the loop (`vec![ROOT]` or
+        # `Vec::with_capacity(..)` + `push(ROOT)`)
+        seed_pushes = [s for s in pushes if is_const(s["args"][1], 0) and not b.in_cycle(s["bb"])]
+        child_pushes = [s for s in pushes if s not in seed_pushes]
+        ok_push = len(child_pushes) == 1 and m(child, child_pushes[0]["args"][1]) and len(seed_pushes) <= 1
+        pushes = child_pushes or pushes
         if want("DA-EDGE"):
             ctx.check(ok_ui, "DA-EDGE", b, "use_index:" + tag, b.loc(ui[0]["bb"]) if ui else b.span,
                       "each edge must reserve slot base^label in the helper; found %s" % [show(a) for s in ui for a in s["args"][1:]])
@@ -244,7 +249,7 @@ def rule_placement(ctx, R, NR, BR, rules=None):
                 for s_ in S.calls:
                     if s_["args"] and core.same(s_["args"][0], var) and not s_["c"].local:
                         base_ = core.callee_base(s_["key"])
-                        if base_ in core.IDENTITY_KEYS or base_ in core.ADVANCE_KEYS or base_ in (
+                        if base_ in core.IDENTITY_KEYS or base_ in core.ADVANCE_KEYS or base_ in core.NEUTRAL_VEC or base_ in (
                                 "alloc::vec::Vec::len", "alloc::vec::Vec::is_empty", "core::slice::iter", "core::ops::Index::index", "core::slice::len"):
                             continue
                         out.append(base_.split("::")[-1])
@@ -308,6 +313,16 @@ def rule_placement(ctx, R, NR, BR, rules=None):
                 okx = ext_arm is not None and b.edge_guards((gbi, ext_arm), ext[0]["bb"]) and \
                     all(b.dominates(gbi, x["bb"]) for x in after) and \
                     all(x["bb"] not in b.reach(ext_arm, avoid_blocks=[ext[0]["bb"]]) for x in after)
+            if not okx and len(ext) == 1:
+                # any number of comparisons between the base and the length (e.g. a debug_assert!(base <= len) next to the guard):
+                # decided under the proposition `len <= base` — true: the extension is passed before any write; false: no extension
+                is_ge = lambda t: cond.le_terms(t, lambda x: m(slen, x), lambda y: m(base, y))
+                after = ui + sc + (S.named("use_base", HELPER) if tag == "bw" else [])
+                v_t = cond.explore(root, [fb["bb"]], cond.prop_atoms(is_ge, True), stop=[ext[0]["bb"]])
+                v_f = cond.explore(root, [fb["bb"]], cond.prop_atoms(is_ge, False), stop=[pops[0]["bb"]])
+                okx = bool(after) and v_t is not None and v_f is not None and ext[0]["bb"] in v_t and \
+                    not any(x["bb"] in v_t for x in after) and ext[0]["bb"] not in v_f and \
+                    bool(switches_on(root, lambda d: is_ge(d) is not None))
             ctx.check(okx, "B-EXT", b, "extend-before-write:" + tag, b.span,
                       "when base >= states.len() the array must be extended before any slot base^label is written or the base is "
                       "recorded in the helper (the helper only tracks the active window)")
